@@ -106,8 +106,14 @@ def program_for(sc):
             body += ["  else", "    send Else()"]
     lines.append("flow main")
     lines.append("  match Go()")
-    lines += body
-    lines.append("  match Never()")
+    if sc.get("rounds", 1) > 1:
+        # the same statement is executed again by the same flow instance (after an Again event)
+        lines.append("  while True")
+        lines += ["  " + b for b in body]
+        lines.append("    match Again()")
+    else:
+        lines += body
+        lines.append("  match Never()")
     lines.append("")
     if form != "match":
         # with_fail: a leaf flow can also FAIL (on its own Fail event): a failed flow can never satisfy its leaf any more
@@ -170,18 +176,25 @@ class C07(InterpProp):
         sc["dnf_groups"] = size
         sc["leaf_style"] = d.choice(["name", "param"], "leafstyle")
         sc["with_fail"] = form != "match" and d.chance(0.45, "withfail")
+        sc["rounds"] = 2 if d.chance(0.35, "rounds") else 1
         sc["noise_seed"] = d.randint(0, 1 << 30, "noise")
         sc["tie_seed"] = d.randint(0, 1 << 30, "tie")
         return sc
 
-    def deliveries_for(self, sc, order, oi):
-        """Explicit delivery list for one order: premature leaf events, Go, leaves with noise."""
+    def deliveries_for(self, sc, order, oi, rnd=0):
+        """Explicit delivery list for one order: premature leaf events, Go, leaves with noise.  rnd > 0: a further round of the same
+        statement in the same flow instance (after an Again event), with the leaves in another order."""
         d = Draws(sc["noise_seed"])
         dl = []
-        pre = [l for l in order if d.chance(0.25, "pre", oi, l)]
-        for l in pre:
-            dl.append(("pre", l))
-        dl.append(("go", None))
+        if rnd:
+            oi = (oi, "round", rnd)
+            order = d.shuffle(list(order), "order", oi)
+            dl.append(("again", None))
+        else:
+            pre = [l for l in order if d.chance(0.25, "pre", oi, l)]
+            for l in pre:
+                dl.append(("pre", l))
+            dl.append(("go", None))
         for i, l in enumerate(order):
             if d.chance(0.3, "noise", oi, i):
                 dl.append(("noise", None))
@@ -195,6 +208,8 @@ class C07(InterpProp):
                 dl.append(("dup", l))
             if sc.get("with_fail") and d.chance(0.15, "late-fail", oi, i):
                 dl.append(("fail", l))  # a Fail event for a leaf that already finished: irrelevant
+        if not rnd and sc.get("rounds", 1) > 1:
+            dl += self.deliveries_for(sc, order, oi, rnd=1)
         return dl
 
     def run_order(self, sc, deliveries, program, tr=None):
@@ -219,6 +234,8 @@ class C07(InterpProp):
                 t["now"] += 0.01
                 if kind == "go":
                     ev = {"type": "Go"}
+                elif kind == "again":
+                    ev = {"type": "Again"}
                 elif kind == "noise":
                     ev = {"type": "Irrelevant"}
                 else:
@@ -281,6 +298,7 @@ class C07(InterpProp):
             # oracle: a leaf is satisfied by the first terminal event of its flow being the finishing one; a failed leaf can never
             # be satisfied.  A (monotone) formula is dead once it is false even with every undecided leaf counted as satisfied.
             got, failed = set(), set()
+            main_alive = True
             active = False
             expected = []
             done = False
@@ -289,6 +307,12 @@ class C07(InterpProp):
                 exp = []
                 if kind == "go":
                     active = True
+                elif kind == "again":
+                    # the flow went on to `match Again()` if the statement completed (for await: unless it failed); the statement
+                    # then starts afresh: nothing that arrived before counts
+                    if done and main_alive:
+                        got, failed, done = set(), set(), False
+                        out.probe("statement_executed_again_in_same_instance")
                 elif kind in ("leaf", "dup", "pre", "fail") and active and not done:
                     if l not in got and l not in failed:
                         (failed if kind == "fail" else got).add(l)
@@ -304,6 +328,7 @@ class C07(InterpProp):
                         # await: the awaiting flow fails (nothing is emitted any more); when: the else branch runs
                         exp = ["Else"] if form == "when" else []
                         done = True
+                        main_alive = form == "when"
                         out.probe("all_alternatives_failed")
                     if kind == "fail":
                         out.probe("leaf_flow_failed")
